@@ -770,6 +770,37 @@ func (it *interpreter) sleep(fr *frame, d int64) {
 func (it *interpreter) mapOrder(fr *frame, m *omap) []*omapEntry {
 	live := m.live()
 	n := len(live)
+	if it.permuteActive && n > 1 && (fr.g == nil || fr.g.atomicDepth == 0) && it.ld.isRepoFn(fr.fn) {
+		// single-site permutation (C16): only the k-th eligible range execution is permuted
+		k := it.permuteCount
+		it.permuteCount++
+		if k == it.permuteAt {
+			site := "maporder1@" + fr.pos()
+			if n <= 4 {
+				rest := append([]*omapEntry(nil), live...)
+				var res []*omapEntry
+				for len(rest) > 1 {
+					c := it.pc.choose(it, site, len(rest), nil)
+					res = append(res, rest[c])
+					rest = append(rest[:c:c], rest[c+1:]...)
+				}
+				return append(res, rest[0])
+			}
+			c := it.pc.choose(it, site, n+1, nil)
+			res := make([]*omapEntry, n)
+			if c == n {
+				for i := range live {
+					res[i] = live[n-1-i]
+				}
+				return res
+			}
+			for i := range live {
+				res[i] = live[(i+c)%n]
+			}
+			return res
+		}
+		return live
+	}
 	if n <= 1 || it.cfg.MapOrders == "" || it.cfg.MapOrders == "first" {
 		return live
 	}
